@@ -71,6 +71,17 @@ def b_call(I, T, b, method, *args):
         return I.call('builder::GenericPurlBuilder::<%s>::without_qualifier::<&str>' % t, [b, RStr(args[0])])
     if method == 'with_package_type':
         return I.call('builder::GenericPurlBuilder::<%s>::with_package_type' % t, [b, args[0]])
+    if method in ('set_namespace', 'set_name', 'set_version', 'set_subpath'):
+        # direct edit of the public `parts`
+        b.fields[1].fields[{'set_namespace': 0, 'set_name': 1, 'set_version': 2, 'set_subpath': 4}[method]] = StringBuf(args[0])
+        return b
+    if method == 'repository_url':
+        return I.call("builder::GenericPurlBuilder::<%s>::with_typed_qualifier::<RepositoryUrl<'_>>" % t, [b, Some(Adt('RepositoryUrl', None, [RStr(args[0])]))])
+    if method == 'no_repository_url':
+        return I.call("builder::GenericPurlBuilder::<%s>::with_typed_qualifier::<RepositoryUrl<'_>>" % t, [b, NONE_()])
+    if method == 'no_checksum':
+        r = I.call("builder::GenericPurlBuilder::<%s>::try_with_typed_qualifier::<Checksum<'_>>" % t, [b, NONE_()])
+        return r.fields[0]
     raise ValueError(method)
 
 
